@@ -320,6 +320,12 @@ def c08_job(chk, rng, i):
     f = {"less": 40, "more": 30, "unput": 30, "input": 30, "ret": 20,
          "unput_alpha": b"ab01 \n" + (b"\x00" if i % 6 == 0 else b"")}
     scripts.decorate(case, rng, f)
+    if (i // 2) % 2 == 0:
+        # '^' rule in a condition that is never entered: builds the scanner with its
+        # beginning-of-line bookkeeping in yyinput()/yyunput()/yyless() (see C09)
+        case["scs"].append(("NEVERBOL", True))
+        case["rules"].append({"scs": [len(case["scs"]) - 1], "bol": True, "pat": ("chr", 97),
+                              "trail": None, "act": []})
     array = (i % 2 == 1)
     ctx = gen.ctx_of(case)
     nsrc = rng.choice([1, 1, 2, 3])
@@ -365,6 +371,13 @@ def c09_job(chk, rng, i):
         for r in case["rules"]:
             r["bol"] = False
     scripts.decorate(case, rng, f)
+    if mode in (1, 3) and (i // 4) % 2 == 0:
+        # a '^' rule in a condition that is never entered: the scanner is built with its
+        # beginning-of-line bookkeeping (another code path in yyinput()/yyunput()), while the
+        # model's domain restriction on '^' after yyless/yyunput/yyinput is not touched
+        case["scs"].append(("NEVERBOL", True))
+        case["rules"].append({"scs": [len(case["scs"]) - 1], "bol": True, "pat": ("chr", 97),
+                              "trail": None, "act": []})
     case["opts"]["yylineno"] = (i % 10 != 9)      # every tenth case: option off
     ctx = gen.ctx_of(case)
     inputs = []
@@ -404,7 +417,7 @@ def c10_job(chk, rng, i):
     nsc = len(case["scs"])
     nsrc = rng.choice([1, 2, 3, 4, 5])
     # EOF rules: none / unqualified / some conditions / both
-    style = rng.below(4)
+    style = rng.below(6)
     eofs = []
 
     def eof_action(k):
@@ -419,7 +432,18 @@ def c10_job(chk, rng, i):
     if style in (1, 3) and nsc > 1:
         scs = sorted(rng.sample(range(nsc), rng.rint(1, nsc - 1)))
         eofs.append({"scs": scs, "act": eof_action(1)})
-    if style in (2, 3):
+    if style in (4, 5) and nsc > 2:
+        # overlapping lists: a condition that already has its rule appears again (flex warns
+        # and the first rule keeps it), followed by conditions that have none yet
+        a = rng.below(nsc)
+        eofs.append({"scs": [a], "act": eof_action(3)})
+        rest = [x for x in range(nsc) if x != a]
+        rng.shuffle(rest)
+        lst = [a] + rest[:rng.rint(1, len(rest))]
+        if rng.chance(50):
+            lst = rest[:1] + [a] + rest[1:rng.rint(2, len(rest))] if len(rest) > 1 else lst
+        eofs.append({"scs": lst if rng.chance(80) else "*", "act": eof_action(4)})
+    if style in (2, 3, 5):
         eofs.append({"scs": None, "act": eof_action(2)})
     # an EOF action that restarts and then falls into yyterminate would terminate anyway;
     # restructure: restart => fall through (no terminate)
